@@ -69,6 +69,15 @@ class BioValuation:
 def const(n, v): return BioBdd(n, [v] * (1 << n))
 def var_fn(n, i): return BioBdd(n, [bool((a >> i) & 1) for a in range(1 << n)])
 def pointwise(f, x, y): return BioBdd(x.n, [f(p, q) for p, q in zip(x.tab, y.tab)])
+def pystr(v):
+    v = deref(v)
+    if isinstance(v, StrBuf): v = v.s
+    if isinstance(v, str): return v
+    if type(v).__name__ == 'SymStr':
+        bs = v.bytes()
+        if all(isinstance(b, int) for b in bs): return bytes(bs).decode()
+    raise Unsupported('symbolic variable name for biodivine')
+
 def varidx(v):
     v = deref(v)
     if isinstance(v, Struct): v = v.f[0]
@@ -96,8 +105,7 @@ def _make_variables(e, c, a):
     items = sl.aslist() if isinstance(sl, SliceRef) else sl.items
     out = []
     for x in items:
-        s = deref(x); s = s.s if isinstance(s, StrBuf) else s
-        if not isinstance(s, str): raise Unsupported('symbolic variable name for biodivine')
+        s = pystr(x)
         if s in b.names: raise RustPanic('biodivine: BDD variable %s already exists' % s)
         if any(ch in BAD_NAME_CHARS for ch in s): raise RustPanic('biodivine: name %s is invalid, cannot use a name with special characters' % s)
         out.append(Struct([len(b.names)])); b.names.append(s)
@@ -119,7 +127,7 @@ def eval_expr(e, vs, x):
     k = x.v
     if k == 'Const': return const(n, bool(truth(e, x.f[0])))
     if k == 'Variable':
-        s = deref(x.f[0]); s = s.s if isinstance(s, StrBuf) else s
+        s = pystr(x.f[0])
         if s not in vs.names: raise RustPanic('biodivine: unknown variable %s in expression' % s)
         return var_fn(n, vs.names.index(s))
     if k == 'Not': return BioBdd(n, [_not(p) for p in eval_expr(e, vs, x.f[0]).tab])
